@@ -19,7 +19,7 @@ RUN = os.path.join(VERIF, '.run')
 FAILDIR = os.path.join(VERIF, 'failures')
 JOBS = int(os.environ.get('VERIF_JOBS', '16'))
 GUARD = 'LIBERASURECODE_VERIF'
-RECIPE_VERSION = '5'
+RECIPE_VERSION = '6'
 
 CC, CXX = 'clang', 'clang++'
 SAN = ['-fsanitize=address,undefined', '-fno-sanitize=shift-base', '-fno-sanitize-recover=undefined', '-fno-omit-frame-pointer']
@@ -131,6 +131,7 @@ def build_variant(repo, variant):
         link.append(([CC, '-shared', '-Wl,-soname,' + so] + spec['ldflags'] + objs[so] + ['-o', os.path.join(tmp, so), '-lpthread'], tmp))
     link.append(([CC, '-shared', '-Wl,-soname,libisal.so.2'] + spec['ldflags'] + [isal_o, '-o', os.path.join(tmp, 'libisal.so.2')], tmp))
     parallel(link)
+    build_shims(tmp, spec['cflags'], spec['ldflags'])
     os.symlink('libXorcode.so.1', os.path.join(tmp, 'libXorcode.so'))
     r = sh([CC, '-shared', '-Wl,-soname,liberasurecode.so.1'] + spec['ldflags'] + objs['lib'] + [hooks_o] +
            ['-o', os.path.join(tmp, 'liberasurecode.so.1'), '-L', tmp, '-lXorcode', '-lpthread', '-lm', '-lz', '-ldl'], cwd=tmp)
@@ -142,6 +143,35 @@ def build_variant(repo, variant):
     os.rename(tmp, out)
     prune_cache(variant)
     return out
+
+
+SHIM_SYMS = {
+    'rs': ['init_liberasurecode_rs_vand', 'deinit_liberasurecode_rs_vand', 'make_systematic_matrix', 'free_systematic_matrix',
+           'liberasurecode_rs_vand_encode', 'liberasurecode_rs_vand_decode', 'liberasurecode_rs_vand_reconstruct'],
+    'null': ['null_code_init', 'null_code_encode', 'null_code_decode', 'null_reconstruct', 'null_code_fragments_needed'],
+    'isav': ['ec_encode_data', 'ec_init_tables', 'gf_gen_rs_matrix', 'gf_invert_matrix', 'gf_mul'],
+    'isac': ['ec_encode_data', 'ec_init_tables', 'gf_gen_cauchy1_matrix', 'gf_invert_matrix', 'gf_mul'],
+}
+
+
+def build_shims(tmp, cflags, ldflags):
+    """fault shims for C17: stand-in plugin handles that make the back end's OWN init fail at a chosen internal step -
+    libshim_<be>_<j>.so exports only the first j symbols the init resolves (so the (j+1)-th dlsym fails); for rs,
+    j == 7 exports all of them with make_systematic_matrix returning NULL (the matrix allocation failing)"""
+    cmds = []
+    for be, syms in SHIM_SYMS.items():
+        for j in range(len(syms) + (1 if be == 'rs' else 0)):
+            src = os.path.join(tmp, 'obj', 'shim_%s_%d.c' % (be, j))
+            with open(src, 'w') as f:
+                f.write('/* generated */\n')
+                for name in syms[:j]:
+                    if name == 'make_systematic_matrix':
+                        f.write('int *make_systematic_matrix(int k, int m) { (void)k; (void)m; return 0; }\n')
+                    else:
+                        f.write('long %s(void) { return 0; }\n' % name)
+            cmds.append(([CC, '-shared', '-fPIC', '-O1'] + [x for x in cflags if x.startswith('-fsanitize') or x.startswith('-fno-sanitize')] + ldflags +
+                         [src, '-o', os.path.join(tmp, 'libshim_%s_%d.so' % (be, j))], tmp))
+    parallel(cmds)
 
 
 def prune_cache(variant):
@@ -253,11 +283,12 @@ def plan(pid, tier):
                         + sweep_jobs('h_codec', 'c02_band', 2 if q else 6) + sweep_jobs('h_codec', 'c02_large', 3))
     P['C03'] = lambda: (rc_jobs('h_codec', 'c03', 12, 3000 if q else 40000) + sweep_jobs('h_codec', 'c03_xor_sweep', 3 if q else 12)
                         + sweep_jobs('h_codec', 'c03_rs_sweep', 1) + sweep_jobs('h_codec', 'c03_large', 3))
-    P['C04'] = lambda: (sweep_jobs('h_format', 'selftest', 1) + sweep_jobs('h_format', 'c04_matrix', 12) + rc_jobs('h_format', 'c04_parity', 4, 2500 if q else 30000)
+    P['C04'] = lambda: (sweep_jobs('h_format', 'selftest', 1) + sweep_jobs('h_format', 'c04_matrix', 12) + rc_jobs('h_format', 'c04_parity', 4, 2500 if q else 30000) + sweep_jobs('h_format', 'c04_blocking', 4 if q else 8)
                         + rc_jobs('h_format', 'c04_parity_mt', 3, 120 if q else 2500))
     P['C05'] = lambda: (sweep_jobs('h_format', 'selftest', 1) + sweep_jobs('h_format', 'c05_tables', 1) + sweep_jobs('h_format', 'c05_encode', 2) + sweep_jobs('h_format', 'c05_encode', 1, variant='asan-nosse')
                         + sweep_jobs('h_format', 'c05_unsupported', 1)
-                        + sweep_jobs('h_codec', 'c05_decode_sweep', 6 if q else 8) + sweep_jobs('h_codec', 'c05_decode_sweep', 4 if q else 8, variant='asan-nosse') + sweep_jobs('h_codec', 'c05_mt', 2 if q else 4))
+                        + sweep_jobs('h_codec', 'c05_decode_sweep', 6 if q else 8) + sweep_jobs('h_codec', 'c05_decode_sweep', 4 if q else 8, variant='asan-nosse') + sweep_jobs('h_codec', 'c05_mt', 2 if q else 4)
+                        + sweep_jobs('h_codec', 'c05_large', 4) + sweep_jobs('h_codec', 'c05_large', 2, variant='asan-nosse'))
     P['C07'] = lambda: (sweep_jobs('h_format', 'selftest', 1) + rc_jobs('h_format', 'c07', 12, 6000 if q else 60000) + sweep_jobs('h_format', 'c07_sweep', 4))
     P['C08'] = lambda: (rc_jobs('h_format', 'c08', 10, 8000 if q else 80000) + sweep_jobs('h_format', 'c08_sweep', 6))
     P['C06'] = lambda: (rc_jobs('h_needed', 'c06', 8, 6000 if q else 80000) + sweep_jobs('h_needed', 'c06_xor_sweep', 4) + sweep_jobs('h_needed', 'c06_rs_sweep', 4 if q else 12))
@@ -285,8 +316,8 @@ RULES = {
     'C01': 'rapidcheck-generated (backend, shape, w, checksum type, length, content, erasure set within tolerance, permutation, duplicates, per-buffer alignment, force flag) plus sweeps (all 38 XOR tables x all erasure sets below hd; every RS/ISA-L shape once with |E|=m). Non-trivial: at least one DATA fragment erased and content not constant. Distinct: 64-bit hash of the canonical case text.',
     'C02': 'rapidcheck-generated sub-multisets of one stripe incl. beyond tolerance, with decode and reconstruct; sweeps: all 2^n subsets of small codes, all flat-XOR erasure sets of size hd..hd+1 (quick) / hd..m+1 (thorough). Non-trivial: set outside tolerance or unrecoverable by the rank oracle.',
     'C03': 'rapidcheck-generated (configuration, data, erasure set within tolerance, destinations lost/present/out of range) plus sweeps (XOR all |E|<hd x lost destinations; RS every shape |E|=m). Non-trivial: >=2 lost and destination lost, or XOR with >=2 lost.',
-    'C04': 'enumerated: all 496 shapes k>=1,m>=1,k+m<=32 - make_systematic_matrix(k,m) entry by entry against L_j(r)/L_j(k) over an independent GF(2^16) (0x1100b), then k-subsets of the library matrix rows inverted (exhaustive up to n=12 quick / n=16 thorough, random subsets above); generated: (k,m,block size,content) -> parity payload bytes from liberasurecode_encode vs closed form on host-order 16-bit words, first parity == XOR of data; the same comparison with 2-6 threads encoding different data at once through own or shared instances (payloads mostly above 1 KiB). Non-trivial: k>=2 (matrix) / k>=2 and two distinct non-zero words (parity).',
-    'C05': 'enumerated: 38 tables x (library bitmaps vs golden equations in both directions, minimum distance by GF(2) rank over all erasure sets <= hd, encode with one non-zero data fragment at a time and with random data for payload sizes 4..4100, every erasure set below hd decoded and reconstructed, SSE2 and portable builds), and every (k,m,hd) in 0..33 x 0..8 x 0..7 outside the 38 refused; per table a multi-threaded run (2 decoders with 2..hd-1 erasures on one instance while 2 threads create and destroy instances of the same shape). Non-trivial: >=2 erasures or a parity rebuilt (decode sweep); every table/encode case.',
+    'C04': 'enumerated: all 496 shapes k>=1,m>=1,k+m<=32 - make_systematic_matrix(k,m) entry by entry against L_j(r)/L_j(k) over an independent GF(2^16) (0x1100b), then k-subsets of the library matrix rows inverted (exhaustive up to n=12 quick / n=16 thorough, random subsets above); generated: (k,m,block size,content) -> parity payload bytes from liberasurecode_encode vs closed form on host-order 16-bit words, first parity == XOR of data; the same comparison with 2-6 threads encoding different data at once through own or shared instances (payloads mostly above 1 KiB); one generated case in five plus an enumerated sweep put the fragment payload on a cache-blocking boundary ((2^a / streams) rounded down to 16 or 64 bytes, times 1..3; streams in 1, 2, k, k+1, m, k+m; up to 2 MiB of data). Non-trivial: k>=2 (matrix) / k>=2 and two distinct non-zero words (parity).',
+    'C05': 'enumerated: 38 tables x (library bitmaps vs golden equations in both directions, minimum distance by GF(2) rank over all erasure sets <= hd, encode with one non-zero data fragment at a time and with random data for payload sizes 4..4100, every erasure set below hd decoded and reconstructed, SSE2 and portable builds), and every (k,m,hd) in 0..33 x 0..8 x 0..7 outside the 38 refused; per table a multi-threaded run (2 decoders with 2..hd-1 erasures on one instance while 2 threads create and destroy instances of the same shape); fragment payloads around powers of two from 64 KiB to 2 MiB (4 MiB thorough) with a data fragment lost, both build flavours. Non-trivial: >=2 erasures or a parity rebuilt (decode sweep); every table/encode case.',
     'C07': 'rapidcheck-generated (backend incl. null, shape, w, checksum type incl. MD5, legacy-CRC env, length, content) + one case per shape per backend: every byte of every fragment vs an independent serializer (literal offsets, independent GF and CRC models). Non-trivial: CRC32, length not a multiple of k*wordsize, non-constant data.',
     'C08': 'rapidcheck-generated (backend incl. null, shape, length to 2^20) + dense sweep of all lengths 0..4*k*ws+2 for 40+ configurations: the three size queries vs arithmetic and vs what encode produced; dead/never-issued/negative descriptors refused. Non-trivial: length not a multiple of k*wordsize.',
     'C06': 'enumerated: all 38 flat-XOR tables x all disjoint (R non-empty, X) with |R|+|X|<hd in both list orders; RS n<=8 (quick) / n<=12 (thorough) and ISA-L n<=6/10 x all (R,X) with |R|+|X|<=m; rapidcheck-generated pairs for larger shapes incl. beyond tolerance. Oracle on the returned list (n-int output buffer behind an ASan red zone): termination, range, distinctness, disjointness, sufficiency (RS/ISA: exactly k and reconstruct from only those fragments reproduces each requested fragment; XOR: GF(2) span + XOR of the actual payloads). Beyond tolerance: error or a list passing the same test. Non-trivial: X hits the unconstrained answer, or |R|>=2.',
@@ -298,7 +329,7 @@ RULES = {
     'C14': 'histories over <=4 slots of create (5 back ends, many shapes), failing create (7 kinds), destroy, destroy of dead descriptors, use (encode/decode/reconstruct vs reference), probe of 12 entry points with a dead descriptor, and presets of the exported descriptor counter to INT_MAX-3..INT_MAX; after EVERY step a behavioural scan of the registry (size query on every descriptor ever seen +-2, 1..8 and INT_MAX-8..INT_MAX after a preset) must equal the model and every live instance must round-trip; plus all sequences over a 12-symbol alphabet to depth 5 (quick) / 6 (thorough). Non-trivial: two live instances of one back end at some point and a non-LIFO destroy or a counter wrap.',
     'C15': 'histories mixing encode/decode/reconstruct/metadata/validation/failing calls/other instances/encode on a fresh thread; at the end every kept stripe is decoded, reconstructed and re-encoded with all inputs (data, every fragment, the pointer array) on PROT_READ pages flush against PROT_NONE pages (end- or start-flush, aligned and unaligned); every encode output must equal the independent serializer (a pure function of configuration and data); plus a sweep under guard pages: every flat-XOR table x every erasure set below hd (decode + reconstruct of each lost index; aligned inputs ending exactly at the guard page, start-flush, and unaligned) and every RS/ISA-L shape with |E|=m. Non-trivial: same (configuration, data) encoded at two points of the history and a rebuild happened.',
     'C16': 'histories (<=300 steps) mixing valid calls with cleanup, beyond-tolerance/duplicated/insufficient sets, damaged headers, invalid arguments, failing creates and dead-descriptor probes; ASan reports double free / use-after-free at once, LeakSanitizer recoverable check after destroying all instances at the end of each history; plus one encode/decode/cleanup/destroy + leak check per shape. Non-trivial: at least one failing call and one successful rebuild in the history.',
-    'C17': 'fault enumeration: the back end operation tables are patched with wrappers that fail chosen call numbers (three modes: fail before the work, do the work then report failure, another negative code). Enumerated: a scripted workload (create, 3 encodes, decode with lost data / lost parity, reconstruct data / parity, 2 fragments_needed, second create, destroy, encode, decode, three naturally failing flat-XOR rebuilds with hd..hd+1 fragments lost) per back end x every call position of init/encode/decode/reconstruct/fragments_needed x 3 modes; generated: random workloads with random fault sets. Oracle: public rc<0 for the faulted call, no cleanup call made and LeakSanitizer clean, immediate retry succeeds with exact results, registry usable, plugin dlopen reference returned. Non-trivial: at least one injected fault was reached.',
+    'C17': 'fault enumeration: the back end operation tables are patched with wrappers that fail chosen call numbers (three modes: fail before the work, do the work then report failure, another negative code); for init additionally the OWN init of the back end is run against stand-in plugin handles that make one of its internal steps fail (the j-th symbol lookup, or the RS generator-matrix construction returning NULL), so its own error exits execute. Enumerated: a scripted workload (create, 3 encodes, decode with lost data / lost parity, reconstruct data / parity, 2 fragments_needed, second create, destroy, encode, decode, three naturally failing flat-XOR rebuilds with hd..hd+1 fragments lost) per back end x every call position of init/encode/decode/reconstruct/fragments_needed x 3 modes; generated: random workloads with random fault sets. Oracle: public rc<0 for the faulted call, no cleanup call made and LeakSanitizer clean, immediate retry succeeds with exact results, registry usable, plugin dlopen reference returned. Non-trivial: at least one injected fault was reached.',
     'C19': 'both ISA-L adapters on the clean-room libisal.so.2: enumerated - every (k,m) with k+m<=8 (quick) / 12 (thorough), every erasure set |E|<=m+1, decode + reconstruct of every lost index and one present index, two table encodings of the stand-in (adapter must treat tables as opaque); generated - all shapes to k+m=32 with permutations/duplicates/alignment; injected inversion failures (the stand-in fails the next gf_invert_matrix call): public call must fail, LeakSanitizer clean, retry exact; fragments_needed for the adapters with the C06 oracle. Oracle: exact when the first k surviving generator rows are invertible over GF(2^8) (independent model), error when the survivors have rank < k, either when only another subset is invertible. Non-trivial: a data fragment erased or a lost destination rebuilt; an inversion failure actually injected.',
     'C18': 'tier 1 (ThreadSanitizer): generated workloads of 2..16 threads released by a barrier, each thread running its own create/use/destroy cycles of mixed back ends (concurrent first-ever RS creates are generated on purpose), held instances, and encode/decode/reconstruct/queries on 0..2 shared descriptors, with generated yield paddings; oracle: no TSan report during the workload, every result equals the sequential reference (independent serializer / original data), descriptors of overlapping lifetimes distinct, shared instances intact afterwards. tier 2 (controlled schedules under ASan, guarded yield hooks): see per_mode c18_sched*. Non-trivial: >=2 threads with at least one operation each.',
     'C20': 'rapidcheck-generated (configuration with CRC32, data, presented multiset, damaged subset: payload bit flips, re-sealed header field edits, unsealed header damage), decode with force=1. Non-trivial: at least one damaged DATA fragment.',
@@ -427,9 +458,9 @@ for _m in ['c17', 'c17_single']:
 MODE_HARNESS['c18_tsan'] = ('t_race', 'tsan')
 MODE_HARNESS['c18_sched'] = ('h_sched', 'asan')
 MODE_HARNESS['c18_sched_exhaustive'] = ('h_sched', 'asan')
-for _m in ['c07', 'c07_sweep', 'c08', 'c08_sweep', 'c04_matrix', 'c04_parity', 'c04_parity_mt', 'selftest', 'c05_tables', 'c05_encode', 'c05_unsupported']:
+for _m in ['c07', 'c07_sweep', 'c08', 'c08_sweep', 'c04_matrix', 'c04_parity', 'c04_parity_mt', 'c04_blocking', 'selftest', 'c05_tables', 'c05_encode', 'c05_unsupported']:
     MODE_HARNESS[_m] = ('h_format', 'asan')
-for _m in ['c01_large', 'c02_large', 'c03_large', 'c05_mt', 'c19', 'c19_sweep', 'c19_inv', 'c19_singular', 'c05_decode_sweep', 'c01', 'c01_xor_sweep', 'c01_rs_sweep', 'c01_isa_sweep', 'c02', 'c02_subsets', 'c02_band', 'c03', 'c03_xor_sweep', 'c03_rs_sweep', 'c20']:
+for _m in ['c01_large', 'c02_large', 'c03_large', 'c05_large', 'c05_mt', 'c19', 'c19_sweep', 'c19_inv', 'c19_singular', 'c05_decode_sweep', 'c01', 'c01_xor_sweep', 'c01_rs_sweep', 'c01_isa_sweep', 'c02', 'c02_subsets', 'c02_band', 'c03', 'c03_xor_sweep', 'c03_rs_sweep', 'c20']:
     MODE_HARNESS[_m] = ('h_codec', 'asan')
 
 
